@@ -148,6 +148,83 @@ def case_oracle_validation(ctx):
     ctx.prove("guard: trivially satisfiable", [], z3.BoolVal(False), expect="sat", kind="vacuity", axioms=False)
 
 
+def case_rebuild(ctx, mask_names, lgs):
+    """guide-star positions given as an ndarray; the matrix is built twice on the same object and once more on a new
+    object made from the same arrays: every build equals the oracle and the caller's arrays are unchanged"""
+    sc = _sc()
+    masks = [numpy.array(MASKS[m]) for m in mask_names]
+    n = len(masks)
+    geo = Geometry(masks, 1, ngs=[w for w in range(n) if not lgs[w]])
+    pre = geo.pre() + [z(a.re) > 0 for a in geo.alt if isinstance(a, Sym)]
+    ctx.encoded(sc.CovarianceMatrix.__init__, sc.CovarianceMatrix.make_covariance_matrix)
+    ctx.bounds.update(masks=mask_names, guide_stars=["LGS" if f else "NGS" for f in lgs], history="build, build again, new object from the same argument arrays, build")
+    dcut = DCut()
+    gs_arr = core.obj(numpy.array([[p[0], p[1]] for p in geo.gs], dtype=object))
+    d_arr = core.obj(numpy.array(geo.d, dtype=object))
+    wv_arr = core.obj(numpy.array(geo.wv, dtype=object))
+    snap = [(a, [e for e in a.flat]) for a in (gs_arr, d_arr, wv_arr)]
+
+    def go():
+        with npx.symbolic(sc, extra={sc.__name__: {"structure_function_vk": dcut}}):
+            a = list(geo.args())
+            a[3], a[5], a[6] = d_arr, gs_arr, wv_arr
+            cm = sc.CovarianceMatrix(*a)
+            m1 = numpy.asarray(cm.make_covariance_matrix(), dtype=object).copy()
+            m2 = numpy.asarray(cm.make_covariance_matrix(), dtype=object).copy()
+            cm2 = sc.CovarianceMatrix(*a)
+            m3 = numpy.asarray(cm2.make_covariance_matrix(), dtype=object).copy()
+            unchanged = all(all(x is y for x, y in zip(arr.flat, elems)) for arr, elems in snap)
+            return m1, m2, m3, unchanged
+    paths, ex = core.run_paths(go, pre)
+    ctx.explored(ex, len(paths))
+    sl = geo.slopes()
+    N = len(sl)
+    uni = Unifier(ctx, dcut, pre, geo.params())
+    for pi, p in enumerate(paths):
+        if p.exc is not None:
+            ctx.prove("path%d raises %s" % (pi, type(p.exc).__name__), pre + p.pc, z3.BoolVal(False), replay=lambda m: (True, dict(what="raises %r" % (p.exc,))), axioms=False)
+            continue
+        hyp = pre + p.pc
+        m1, m2, m3, unchanged = p.out
+        flags = lgs_flags(geo, p.pc, pre)
+        rp = lambda m: _replay_rebuild(masks, [model_vals(m, geo), generic_vals(geo, 1)])
+        ctx.prove("path%d: the caller's argument arrays are unchanged by the builds" % pi, hyp, z3.BoolVal(bool(unchanged)), replay=rp, axioms=False)
+        for which, M in (("second build on the same object", m2), ("build on a new object from the same arrays", m3)):
+            for i in range(N):
+                for j in range(N):
+                    lhs = z(Sym.lift(M[i, j]).re)
+                    rhs = z(geo.oracle_entry(dcut, sl[i], sl[j], range(1), flags).re)
+                    subs = uni.unify(apps_in(lhs) | apps_in(rhs), hyp)
+                    if subs:
+                        lhs, rhs = z3.substitute(lhs, *subs), z3.substitute(rhs, *subs)
+                    lhs = resolve_bitor(ctx, hyp, lhs)
+                    ctx.prove("path%d %s: entry(%d,%d) = covariance of the two slopes" % (pi, which, i, j), hyp, lhs == rhs, replay=rp, timeout_ms=20000)
+
+
+def _replay_rebuild(masks, vals_list):
+    sc = _sc()
+    last = None
+    for vals in vals_list:
+        n = len(masks)
+        gs = numpy.array(vals["gs"], dtype=float)
+        d = numpy.array(vals["d"], dtype=float)
+        wv = numpy.array(vals["wv"], dtype=float)
+        keep = [gs.copy(), d.copy(), wv.copy()]
+        args = (n, [numpy.asarray(m, dtype=float) for m in masks], vals["D"], d, list(vals["alt"]), gs, wv, 1, [vals["h"][0]], [vals["r0"][0]], [vals["L0"][0]])
+        O = concrete_oracle(vals, masks, [0])
+        cm = sc.CovarianceMatrix(*args)
+        m1 = numpy.array(cm.make_covariance_matrix(), dtype=float)
+        m2 = numpy.array(cm.make_covariance_matrix(), dtype=float)
+        m3 = numpy.array(sc.CovarianceMatrix(*args).make_covariance_matrix(), dtype=float)
+        scale = float(numpy.max(numpy.abs(O))) or 1.0
+        errs = [float(numpy.max(numpy.abs(M - O))) / scale for M in (m1, m2, m3)]
+        changed = not (numpy.array_equal(gs, keep[0]) and numpy.array_equal(d, keep[1]) and numpy.array_equal(wv, keep[2]))
+        last = dict(what="builds 1/2/3 differ from the oracle by %s (relative to the largest entry); argument arrays modified: %s" % (errs, changed), geometry=vals)
+        if changed or any((not numpy.isfinite(e)) or e > 2e-3 for e in errs):
+            return True, last
+    return False, last
+
+
 def case_additivity(ctx, mask_names, lgs):
     sc = _sc()
     masks = [numpy.array(MASKS[m]) for m in mask_names]
@@ -285,6 +362,7 @@ def build_cases(tier):
     for mk, nl, lgs, kw in E:
         nm = "entries/%s/layers=%d/%s%s" % ("+".join(mk), nl, "".join("L" if f else "N" for f in lgs), "/co-aligned" if kw else "")
         cases.append((nm, case_entries, dict(mask_names=mk, n_layers=nl, lgs=lgs, **kw)))
+    cases.append(("rebuild/row+one/LN", case_rebuild, dict(mask_names=["row", "one"], lgs=[True, False])))
     cases.append(("additivity/row+one", case_additivity, dict(mask_names=["row", "one"], lgs=[True, False])))
     cases.append(("scaling/row+one", case_scaling, dict(mask_names=["row", "one"])))
     if tier == "thorough":
